@@ -67,5 +67,318 @@ theorem C03_layerB_no_eviction_when_demand_fits {cfg : Cfg} {now : Nat} {seeds :
     have hns' : NoShutdownReq h1 := fun p hp => hns p (List.mem_cons_of_mem _ hp)
     exact noSpaceFree_step (ih hfit' hns') (bud_run hfit.1 hrun' hns').1 (no_eviction_now hrun' hfit' hns') hs
 
+
+/-! ## 2  retention -/
+
+/-- the write `req` of `(k, v)`, issued by client `j` at `p₀`, has been ACKNOWLEDGED AS ACCEPTED as of the state `s`:
+    the call returned `Ok(ack hd)` at some `q` (the first return of `j` after `p₀`: it IS that call), and the cell `hd`
+    holds `Accepted` in `s` — answered on the spot, or by the worker's completion of the command -/
+def AckedAccepted (h : List (BState × Act)) (b : BState) (j p₀ n : Nat) (s : BState) : Prop :=
+  ∃ q hd st, FirstRet h b j p₀ q (.ack hd st) ∧ q < n ∧ s.g.acks[hd]? = some .accepted
+
+/-- **C03 at action granularity, the core** (the premises on the key in STATE form; `C03_layerB_retained` below
+    discharges them from the events of the history).
+
+    Along any run from the initial state on which no `shutdown()` is requested and whose requests satisfy `DemandFits`:
+    let client `j` issue at `p₀` a write `req` of `(k, v)` (`put*(k, v)` or `put_or_update(k, Some(v), ..)`) in a state `s₀`
+    in which
+      (S) no put / delete / value-carrying upsert of `k` is under way (`Safe k s₀`), and
+      (E) the sweeper is not carrying through the eviction of an entry of `k` that has been revived (`EvInv s₀ k`);
+    let the `n₁`-th action (any action: in particular a store lookup of `k`) run in the state `s₁`, `p₀ < n₁`, such that
+      (A) the write has been acknowledged as accepted as of `s₁`,
+      (N) no put, delete or value-carrying upsert of `k` is issued strictly between `p₀` and `n₁`
+          (value-LESS `put_or_update`s of `k` — weight, time-to-live — are free), and
+      (L) in every state from `p₀` to `n₁` the entry of `k`, if there is one, has not expired by its own deadline.
+    Then in `s₁` the store holds under `k` an entry with value `v`, not marked deleted, not expired: ALIVE. -/
+theorem C03_layerB_retained_core {cfg : Cfg} {now : Nat} {seeds : List Nat} {clients : Nat} {sm : List (Nat × Nat)}
+    {b : BState} {h : List (BState × Act)} {k v j p₀ n₁ : Nat} {req : Req} {s₀ s₁ : BState} {a₁ : Act}
+    (hrun : RunH { BState.init cfg now seeds clients with storeShard := sm } h b)
+    (hfit : DemandFits cfg h) (hns : NoShutdownReq h) (hreq : WritesReq req k v)
+    (hiss : At h p₀ (s₀, .issue j req)) (hS : Safe k s₀) (hE : EvInv s₀ k)
+    (hat : At h n₁ (s₁, a₁)) (hp : p₀ < n₁) (hA : AckedAccepted h b j p₀ n₁ s₁)
+    (hN : ∀ q s i r, p₀ < q → q < n₁ → At h q (s, .issue i r) → r.danger k = false)
+    (hL : ∀ q s a, p₀ ≤ q → q ≤ n₁ → At h q (s, a) → LiveK k s) :
+    ∃ e, s₁.g.store.get? k = some e ∧ e.value = v ∧ e.alive s₁.g.now = true := by
+  obtain ⟨h1, h0, rfl, hlen, hr0⟩ := runH_at_append hrun hat
+  subst hlen
+  have hsub : Sub h0 (h1 ++ (s₁, a₁) :: h0) := by
+    have := sub_append h0 (h1 ++ [(s₁, a₁)])
+    simpa using this
+  have hfit0 : DemandFits cfg h0 := DemandFits.suffix (h1 := h1 ++ [(s₁, a₁)]) (by simpa using hfit)
+  have hns0 : NoShutdownReq h0 := noShutdownReq_suffix (h1 := h1 ++ [(s₁, a₁)]) (by simpa using hns)
+  have hev0 := (C03_layerB_no_eviction_when_demand_fits hr0 hfit0 hns0).2.1
+  have hup : ∀ {q x}, At h0 q x → q < h0.length ∧ At (h1 ++ (s₁, a₁) :: h0) q x := fun hx => (hsub _ _).mp hx
+  obtain ⟨hph, _⟩ := wphase_run (k := k) (v := v) (j := j) (p₀ := p₀) (req := req) hr0 hns0 hev0
+    (fun s a hx => by
+      have := (hup hx).2.inj hiss
+      cases this
+      exact ⟨rfl, hS, hE⟩) hreq
+    (fun q s i r hq hx => hN q s i r hq (hup hx).1 (hup hx).2)
+    (fun q s a hq hx => hL q s a hq (Nat.le_of_lt (hup hx).1) (hup hx).2) hp
+  have hr := swB_reach_run (.init sm) hr0
+  obtain ⟨q, hd, st, hf, hq, hacc⟩ := hA
+  have hk := wphase_accepted hph (hinv_reach hr) ⟨q, hd, st, firstRet_restrict hsub hat hf hq, hacc⟩
+  obtain ⟨_, _, e, he, hv, hsoft⟩ := hk
+  refine ⟨e, he, hv, ?_⟩
+  have hl := hL h0.length s₁ a₁ (Nat.le_of_lt hp) (Nat.le_refl _) hat
+  unfold Entry.alive
+  rw [hsoft]
+  simp only [Bool.false_eq_true, if_false]
+  cases hx : e.expiry with
+  | none => rfl
+  | some t =>
+    have := hl e t he hx
+    simp only [Bool.not_eq_eq_eq_not, Bool.not_true, decide_eq_false_iff_not, Nat.not_lt]
+    exact this
+
+
+/-! ## 3  the premises as events of the history -/
+
+/-- the request is a put, a delete or a `put_or_update` (of any kind) of `k`: an OPERATION ON `k` that is not a read -/
+def Req.modifies (k : Nat) : Req → Bool
+  | .putW k' _ _ _ => k' == k
+  | .delete k' => k' == k
+  | .upsert k' _ _ _ _ => k' == k
+  | _ => false
+
+theorem Req.modifies_of_danger {k : Nat} {r : Req} (h : r.danger k = true) : r.modifies k = true := by
+  cases r <;> simp only [Req.danger] at h <;> try cases h
+  case putW => exact h
+  case delete => exact h
+  case upsert k' v w ttl rm => cases v <;> simp only [Req.danger] at h <;> first | cases h | exact h
+
+theorem writesReq_modifies {k v : Nat} {r : Req} (h : WritesReq r k v) : r.modifies k = true := by
+  rcases h with ⟨w, ttl, rfl⟩ | ⟨w, ttl, rm, rfl⟩ <;> simp [Req.modifies]
+
+/-- **the call client `i` began at `p` has been ANSWERED before the `n`-th action** (which runs in the state `s`): the
+    call has returned at some `q < n` — the first return of `i` after `p` — and, if it returned `Ok(acknowledgement)`, the
+    acknowledgement is no longer pending in `s`: it was answered on the spot, or the worker has completed the command
+    (`CommandAcknowledgement::done`).  (A call that returned `Err`, or panicked, is answered by its return.) -/
+def AnsweredBy (h : List (BState × Act)) (b : BState) (i p n : Nat) (s : BState) : Prop :=
+  ∃ q out, FirstRet h b i p q out ∧ q < n ∧ ∀ hd st, out = .ack hd st → ∃ st', s.g.acks[hd]? = some st' ∧ st' ≠ .pending
+
+/-- **Operations on `k` are issued one after another**: whenever a put / delete / `put_or_update` of `k` is issued, every
+    such operation issued before it has been answered (`AnsweredBy`) — each is acknowledged before the next begins.
+    Reads of `k`, and all traffic on other keys, are unconstrained. -/
+def SerialOps (k : Nat) (h : List (BState × Act)) (b : BState) : Prop :=
+  ∀ p p' i i' r r' s', p < p' → Issued h i r p → At h p' (s', .issue i' r') → r.modifies k = true →
+    r'.modifies k = true → AnsweredBy h b i p p' s'
+
+/-- the entry of `k`, if there is one, is live in the state of every action from `lo` to `hi` -/
+def LiveDuring (k : Nat) (h : List (BState × Act)) (lo hi : Nat) : Prop :=
+  ∀ q s a, lo ≤ q → q ≤ hi → At h q (s, a) → LiveK k s
+
+/-- the `p₁`-th action runs in a state in which the acknowledgement of the call `j` began at `p₀` holds `Accepted` -/
+def AckedAcceptedAt (h : List (BState × Act)) (b : BState) (j p₀ p₁ : Nat) : Prop :=
+  ∃ q hd st s a, FirstRet h b j p₀ q (.ack hd st) ∧ q < p₁ ∧ At h p₁ (s, a) ∧ s.g.acks[hd]? = some .accepted
+
+/-- **C03 at action granularity, from the English premises.**
+
+    Take ANY run of Layer B from the initial state — any number of clients, the command worker, the sweeper (any visiting
+    order, any number of sweeps), the access consumer and clock moves, interleaved in any way — on which no `shutdown()`
+    is requested and whose issued requests satisfy `DemandFits` ("the combined weight of all keys never exceeds the
+    cache weight").  Let client `j` issue at `p₀` a write `req` of `(k, v)` — `put*(k, v)` or
+    `put_or_update(k, Some(v), ..)` — and let it be acknowledged as `Accepted` before the `p₁`-th action
+    (`AckedAcceptedAt`).  Let the `n₁`-th action, `p₁ ≤ n₁`, be ANY action (in particular the store lookup of a read of
+    `k` issued at `p₁` or later: `get`, `get_ref`, any position of a multi-key read), run in the state `s₁`.  If
+
+    * (serial) every put / delete / value-carrying upsert of `k` issued before `p₀` was answered before `p₀`
+      (a consequence of `SerialOps k h b`: `C03_layerB_retained`),
+    * (latest, not deleted) no put, delete or value-carrying upsert of `k` is issued strictly between `p₀` and `n₁` —
+      `req` is the LATEST write of a value, and no `delete(k)` has been issued since,
+    * (time-to-live) the entry of `k`, when there is one, is live in every state from `p₀` to `n₁` (`LiveDuring`), and at
+      `p₀` either `k` is absent or the incarnation standing there was born by the `store.put` action `c < p₀` and has been
+      live in every state since (`hborn`): the CURRENT TIME-TO-LIVE HAS NOT ELAPSED, at any moment since the entry was
+      born — this is what excludes the known finding D3 (a `put_or_update` of an expired-but-unswept entry revives it
+      while the sweeper may already be carrying its eviction through; `C03_layerB_retained_needs_no_revival`),
+
+    then `s₁` holds under `k` an entry that is ALIVE and carries the value `v`: a lookup of `k` there hits, with exactly
+    the latest acknowledged value.  Traffic on other keys (puts, deletes, upserts, reads), value-less upserts of `k`
+    (weight, time-to-live), access counting, sketch ageing, sweeps and clock moves are arbitrary. -/
+theorem C03_layerB_retained' {cfg : Cfg} {now : Nat} {seeds : List Nat} {clients : Nat} {sm : List (Nat × Nat)}
+    {b : BState} {h : List (BState × Act)} {k v j p₀ p₁ n₁ : Nat} {req : Req} {s₀ s₁ : BState} {a₁ : Act}
+    (hrun : RunH { BState.init cfg now seeds clients with storeShard := sm } h b)
+    (hfit : DemandFits cfg h) (hns : NoShutdownReq h) (hreq : WritesReq req k v)
+    (hiss : At h p₀ (s₀, .issue j req))
+    (hser : ∀ p i r, p < p₀ → Issued h i r p → r.danger k = true → AnsweredBy h b i p p₀ s₀)
+    (hborn : s₀.g.store.get? k = none ∨
+      ∃ c, c < p₀ ∧ (∀ x, At h c x → isPutAny k x) ∧ LiveDuring k h (c + 1) p₀)
+    (hat : At h n₁ (s₁, a₁)) (hp : p₀ < p₁) (hpn : p₁ ≤ n₁) (hA : AckedAcceptedAt h b j p₀ p₁)
+    (hN : ∀ q s i r, p₀ < q → q < n₁ → At h q (s, .issue i r) → r.danger k = false)
+    (hL : LiveDuring k h p₀ n₁) :
+    ∃ e, s₁.g.store.get? k = some e ∧ e.value = v ∧ e.alive s₁.g.now = true := by
+  -- the run up to the issue of the write
+  obtain ⟨h1, h0, e0, hlen, hr0⟩ := runH_at_append hrun hiss
+  have hsub0 : Sub h0 h := by
+    rw [e0]
+    have := sub_append h0 (h1 ++ [(s₀, .issue j req)])
+    simpa using this
+  have hns0 : NoShutdownReq h0 := by
+    rw [e0] at hns
+    exact noShutdownReq_suffix (h1 := h1 ++ [(s₀, .issue j req)]) (by simpa using hns)
+  have hr0' := swB_reach_run (.init sm) hr0
+  have hat0 : At h h0.length (s₀, .issue j req) := by rw [hlen]; exact hiss
+  -- (S) nothing dangerous is under way at the issue
+  have hS : Safe k s₀ := by
+    refine safe_of_answered (prov_run k hr0 hns0) (hinv_reach hr0') ?_
+    intro p i r hi hd
+    have hplt : p < p₀ := by rw [← hlen]; exact issued_lt hi
+    obtain ⟨q, out, hf, hq, hack⟩ := hser p i r hplt (hi.sub hsub0) hd
+    exact ⟨q, out, firstRet_restrict hsub0 hat0 hf (by rw [hlen]; exact hq), hack⟩
+  -- (E) the sweeper is not carrying through the eviction of a revived entry
+  have hE : EvInv s₀ k := by
+    rcases hborn with hnone | ⟨c, hc, hb, hl⟩
+    · intro e n he; rw [hnone] at he; cases he
+    · refine evinv_run_born hr0 hns0 (by rw [hlen]; exact hc) (fun x hx => hb x (hsub0.at hx)) ?_
+      intro q s a hq hx
+      have := (hsub0 _ _).mp hx
+      exact hl q s a hq (by rw [← hlen]; exact Nat.le_of_lt this.1) this.2
+  -- (A) the acknowledgement is still `Accepted` in `s₁`
+  have hA1 : AckedAccepted h b j p₀ n₁ s₁ := by
+    obtain ⟨q, hd, st, s, a, hf, hq, hx, hacc⟩ := hA
+    refine ⟨q, hd, st, hf, by omega, ?_⟩
+    rcases Nat.lt_or_ge p₁ n₁ with hlt | hge
+    · obtain ⟨h1', h0', e1, hlen1, hr1⟩ := runH_at_append hrun hat
+      have hsub1 : Sub h0' h := by
+        rw [e1]
+        have := sub_append h0' (h1' ++ [(s₁, a₁)])
+        simpa using this
+      exact acks_stable_run hr1 ((hsub1 _ _).mpr ⟨by rw [hlen1]; exact hlt, hx⟩) hacc (by simp)
+    · have : p₁ = n₁ := by omega
+      subst this
+      cases hx.inj hat
+      exact hacc
+  exact C03_layerB_retained_core hrun hfit hns hreq hiss hS hE hat (by omega) hA1 hN hL
+
+/-- **… with the serial premise in the form of the English text**: operations on `k` are issued one after another
+    (`SerialOps k h b`) -/
+theorem C03_layerB_retained {cfg : Cfg} {now : Nat} {seeds : List Nat} {clients : Nat} {sm : List (Nat × Nat)}
+    {b : BState} {h : List (BState × Act)} {k v j p₀ p₁ n₁ : Nat} {req : Req} {s₀ s₁ : BState} {a₁ : Act}
+    (hrun : RunH { BState.init cfg now seeds clients with storeShard := sm } h b)
+    (hfit : DemandFits cfg h) (hns : NoShutdownReq h) (hreq : WritesReq req k v)
+    (hiss : At h p₀ (s₀, .issue j req)) (hser : SerialOps k h b)
+    (hborn : s₀.g.store.get? k = none ∨
+      ∃ c, c < p₀ ∧ (∀ x, At h c x → isPutAny k x) ∧ LiveDuring k h (c + 1) p₀)
+    (hat : At h n₁ (s₁, a₁)) (hp : p₀ < p₁) (hpn : p₁ ≤ n₁) (hA : AckedAcceptedAt h b j p₀ p₁)
+    (hN : ∀ q s i r, p₀ < q → q < n₁ → At h q (s, .issue i r) → r.danger k = false)
+    (hL : LiveDuring k h p₀ n₁) :
+    ∃ e, s₁.g.store.get? k = some e ∧ e.value = v ∧ e.alive s₁.g.now = true :=
+  C03_layerB_retained' hrun hfit hns hreq hiss
+    (fun p i r hlt hi hd => hser p p₀ i j r req s₀ hlt hi hiss (Req.modifies_of_danger hd) (writesReq_modifies hreq))
+    hborn hat hp hpn hA hN hL
+
+
+/-! ## 4  what the read returns -/
+
+/-- **every variant of a read, at its lookup**: if the store holds under `k` an alive entry with value `v`, the
+    `store.get` action of `get(k)`, of `get_ref(k)` and of any position of a multi-key read moves the client on to its
+    `pool.add` position CARRYING `v` — the value it then returns (`get`, `get_ref`: `C02_layerB_get_pool`; a multi-key
+    read: appends `Some(v)` at that position, `C02_layerB_mget_pool`) -/
+theorem lookup_hits {s s' : BState} {i k v : Nat} {o o' : Oracle} {e : Entry} (hk : s.g.store.get? k = some e)
+    (hv : e.value = v) (hal : e.alive s.g.now = true) (hs : stepB s (.client i) o = .ok (s', o')) :
+    (s.cl[i]? = some (.getStore k) → s'.cl[i]? = some (.getPool k v)) ∧
+    (s.cl[i]? = some (.refStore k) → s'.cl[i]? = some (.refPool k v)) ∧
+    (∀ ks acc iter, s.cl[i]? = some (.mgetStore k ks acc iter) → s'.cl[i]? = some (.mgetPool k v ks acc iter)) := by
+  simp only [stepB] at hs
+  refine ⟨fun hpc => ?_, fun hpc => ?_, fun ks acc iter hpc => ?_⟩
+  · rcases (C02_layerB_get_store hpc hs).1 with ⟨e', he', _, hcl, _⟩ | ⟨hm, _⟩
+    · rw [hk] at he'; cases he'
+      rw [hcl, hv]; exact List.getElem?_set_self (List.getElem?_eq_some_iff.mp hpc).1
+    · exact absurd hal (by simpa using hm e hk)
+  · rcases (C02_layerB_ref_store hpc hs).1 with ⟨e', he', _, hcl, _⟩ | ⟨hm, _⟩
+    · rw [hk] at he'; cases he'
+      rw [hcl, hv]; exact List.getElem?_set_self (List.getElem?_eq_some_iff.mp hpc).1
+    · exact absurd hal (by simpa using hm e hk)
+  · rcases (C02_layerB_mget_store hpc hs).1 with ⟨e', he', _, hcl, _⟩ | ⟨hm, _⟩
+    · rw [hk] at he'; cases he'
+      rw [hcl, hv]; exact List.getElem?_set_self (List.getElem?_eq_some_iff.mp hpc).1
+    · exact absurd hal (by simpa using hm e hk)
+
+
+/-- **C03, the read's result.**  Under the premises of `C03_layerB_retained'`, a `get(k)` or `get_ref(k)` that is ISSUED
+    at `n₀`, after the acknowledgement of the latest write of `(k, v)` was answered `Accepted` (`p₁ ≤ n₀`), and RETURNS
+    at `n₂` — no put / delete / value-carrying upsert of `k` issued and the entry live up to the return — returns
+    `Some(v)`: exactly the latest acknowledged value. -/
+theorem C03_layerB_retained_read {cfg : Cfg} {now : Nat} {seeds : List Nat} {clients : Nat} {sm : List (Nat × Nat)}
+    {b : BState} {h : List (BState × Act)} {k v j p₀ p₁ i n₀ n₂ : Nat} {req rq : Req} {s₀ : BState} {out : Out}
+    (hrun : RunH { BState.init cfg now seeds clients with storeShard := sm } h b)
+    (hfit : DemandFits cfg h) (hns : NoShutdownReq h) (hreq : WritesReq req k v)
+    (hiss : At h p₀ (s₀, .issue j req))
+    (hser : ∀ p i r, p < p₀ → Issued h i r p → r.danger k = true → AnsweredBy h b i p p₀ s₀)
+    (hborn : s₀.g.store.get? k = none ∨
+      ∃ c, c < p₀ ∧ (∀ x, At h c x → isPutAny k x) ∧ LiveDuring k h (c + 1) p₀)
+    (hp : p₀ < p₁) (hA : AckedAcceptedAt h b j p₀ p₁)
+    (hrq : rq = .get k ∨ rq = .getRef k) (hread : Issued h i rq n₀) (hpn : p₁ ≤ n₀)
+    (hret : Returned h b i n₂ out) (hlt : n₀ < n₂) (hsame : ∀ q r, n₀ < q → q < n₂ → ¬ Issued h i r q)
+    (hN : ∀ q s i r, p₀ < q → q < n₂ → At h q (s, .issue i r) → r.danger k = false)
+    (hL : LiveDuring k h p₀ n₂) : out = .value (some v) := by
+  have hidle : ∀ pc ∈ ({ BState.init cfg now seeds clients with storeShard := sm } : BState).cl, pc = .idle := by
+    intro pc hpc
+    simp only [BState.init, List.mem_replicate] at hpc
+    exact hpc.2
+  obtain ⟨s, s'', hx, hst'', hidle', hres⟩ := hret
+  obtain ⟨s', o, o', h0, pc, hs, hst, hsub, hlen, hpc, hri⟩ := call_at hidle hrun hread hx hlt hsame
+  have := hst.inj hst''
+  subst this
+  -- the entry of `k` at any action between the read's issue and its return
+  have main : ∀ n₁ s₁ a₁, At h n₁ (s₁, a₁) → n₀ ≤ n₁ → n₁ ≤ n₂ →
+      ∃ e, s₁.g.store.get? k = some e ∧ e.value = v ∧ e.alive s₁.g.now = true := by
+    intro n₁ s₁ a₁ hat h1 h2
+    exact C03_layerB_retained' hrun hfit hns hreq hiss hser hborn hat hp (by omega) hA
+      (fun q s i r hq1 hq2 hx => hN q s i r hq1 (by omega) hx)
+      (fun q s a hq1 hq2 hx => hL q s a hq1 (by omega) hx)
+  obtain ⟨e, hke, hve, hal⟩ := main n₂ s _ hx (Nat.le_of_lt hlt) (Nat.le_refl _)
+  -- the flag is not set
+  obtain ⟨h1', h0', e1, hlen1, hr1⟩ := runH_at_append hrun hx
+  have hns1 : NoShutdownReq h0' := by
+    rw [e1] at hns
+    exact noShutdownReq_suffix (h1 := h1' ++ [(s, .client i)]) (by simpa using hns)
+  have hnsh := (noShut_run hr1 hns1).1
+  have hstep : stepB s (.client i) o = .ok (s', o') := by simpa [stepB] using hs
+  have picked : ∀ v', Picked h0 { BState.init cfg now seeds clients with storeShard := sm } i n₀ k v' → v' = v := by
+    rintro v' ⟨n₁, e', hn1, hlook, hval, _⟩
+    have hlt1 := hlook.lt
+    obtain ⟨s₁, hat1, _, hk1, _⟩ := hlook
+    obtain ⟨e1', hk1', hv1, _⟩ := main n₁ s₁ _ (hsub.at hat1) (Nat.le_of_lt hn1) (by omega)
+    rw [hk1] at hk1'; cases hk1'
+    rw [← hval, hv1]
+  rcases hrq with rfl | rfl
+  · rcases hri with rfl | rfl | ⟨v', rfl, hpk⟩
+    · exfalso
+      obtain ⟨pc0, pc', hpc0, hf, _, _, hstep', _, _⟩ :=
+        cact_frame (clientAct_cact hs) hnsh.flag (fun pc h => hnsh.cl i pc h)
+      rw [hpc] at hpc0; cases hpc0
+      cases hstep'
+      case tailPanic => tail_absurd
+      case tailSend => tail_absurd
+      case tailSpot => tail_absurd
+      all_goals
+        rw [hf.cl, List.getElem?_set_self (List.getElem?_eq_some_iff.mp hpc).1] at hidle'
+        cases hidle'
+    · have := (lookup_hits hke hve hal hstep).1 hpc
+      rw [this] at hidle'; cases hidle'
+    · have hv' := picked v' hpk
+      subst hv'
+      rw [(C02_layerB_get_pool hpc hs).2] at hres
+      exact (res_set_head hres).symm
+  · rcases hri with rfl | rfl | ⟨v', rfl, hpk⟩
+    · exfalso
+      obtain ⟨pc0, pc', hpc0, hf, _, _, hstep', _, _⟩ :=
+        cact_frame (clientAct_cact hs) hnsh.flag (fun pc h => hnsh.cl i pc h)
+      rw [hpc] at hpc0; cases hpc0
+      cases hstep'
+      case tailPanic => tail_absurd
+      case tailSend => tail_absurd
+      case tailSpot => tail_absurd
+      all_goals
+        rw [hf.cl, List.getElem?_set_self (List.getElem?_eq_some_iff.mp hpc).1] at hidle'
+        cases hidle'
+    · have := (lookup_hits hke hve hal hstep).2.1 hpc
+      rw [this] at hidle'; cases hidle'
+    · have hv' := picked v' hpk
+      subst hv'
+      rw [(ref_pool_step hpc hs).2] at hres
+      exact (res_set_head hres).symm
+
 end B
 end Cached
